@@ -212,6 +212,44 @@ def check(env, rep, tier):
             rep.ob("C06.5", "%s|%s" % (self_s, name), want in calls,
                    "%s no longer converts through %s (calls: %s)" % (b["path"], want, sorted(c for c in calls if c)),
                    {"file": b["span"]["f"], "line": b["span"]["l"], "fn": b["path"]})
+        # ---- C06.5b text options: Ok exactly when String::from_utf8 says so, carrying that very String
+        sb = find_impl_fn(prog, "core::convert::TryFrom", "option_value::OptionValueString", "alloc::vec::Vec<u8>", "try_from")
+        if sb is not None:
+            I = new_interp(prog)
+            I.no_join_bodies.add(sb["id"])
+            st = State()
+            arg = I.mat(st, prog.ty(sb["locals"][1]["ty"]), "value")
+            made = []
+
+            def m_from_utf8(I_, s_, call, made=made):
+                from summaries import mk_ok, mk_err
+                s2 = s_.copy()
+                src = call.args[0]
+                good = VecV(src.len if isinstance(src, VecV) else Aff.sym(I_.fresh(s_, "len", 0, (1 << 63) - 1)), None, ("utf8-checked", src.gen if isinstance(src, VecV) else None), I_.newgen())
+                made.append(good.gen)
+                s_.ghost["utf8"] = "ok"
+                s2.ghost["utf8"] = "err"
+                return [(s_, mk_ok(good, call.dest_ty)), (s2, mk_err(I_.mat(s2, call.dest_ty[2][1] if call.dest_ty and len(call.dest_ty[2]) > 1 else None, "utf8err"), call.dest_ty))]
+            I.extra_models["alloc::string::String::from_utf8"] = m_from_utf8
+            I, res = run(prog, sb, args=[arg], st=st, I=I)
+            okx = bool(res) and bool(made)
+            for s_, rv in res:
+                if not isinstance(rv, EnumV) or len(rv.variants) != 1:
+                    okx = False
+                    continue
+                vi = next(iter(rv.variants))
+                u = s_.ghost.get("utf8")
+                if vi == 0:
+                    inner = rv.variants[0].fields[0]
+                    inner = inner.fields[0] if isinstance(inner, StructV) and inner.fields else inner
+                    if u != "ok" or not (isinstance(inner, VecV) and inner.gen in made and isinstance(inner.tag, tuple) and inner.tag[0] == "utf8-checked"):
+                        okx = False
+                elif u != "err":
+                    okx = False
+            rep.ob("C06.5", "string-decode-exact", okx,
+                   "OptionValueString::try_from does not return Ok exactly when String::from_utf8 accepts the bytes, with that very string "
+                   "(invalid UTF-8 can be accepted, repaired or truncated; or valid text rejected)",
+                   {"file": sb["span"]["f"], "line": sb["span"]["l"], "fn": sb["path"]})
         # ---- C06.6 typed accessors reach the raw accessors with their own option number
         for entry, raw in (("packet::Packet::add_option_as", "packet::Packet::add_option"),
                            ("packet::Packet::set_options_as", "packet::Packet::set_option"),
@@ -232,9 +270,16 @@ def check(env, rep, tier):
             def hook(I_, s, call, cbody, seen=seen, raw=raw):
                 if call.path == raw:
                     seen.append(call.args[1] if len(call.args) > 1 else None)
+                    s.ghost["reached-raw"] = True
             I.call_hooks.append(hook)
             I, res = run(prog, b, args=args, st=st, I=I, gargs=gargs)
             ok = len(seen) >= 1 and all(x == args[1] for x in seen)
+            # ... on every path: a shortcut that returns without going through the raw accessor stores / reads something else
+            every = bool(res) and all(s_.ghost.get("reached-raw") for s_, _ in res)
+            rep.ob("C06.6", entry + "|every-path", every,
+                   "%s has a path that returns without going through %s (a fast path keeps or builds the stored list by other means: "
+                   "stale elements can survive, or values bypass the typed encoding)" % (entry, raw),
+                   {"file": b["span"]["f"], "line": b["span"]["l"], "fn": entry})
             rep.ob("C06.6", entry, ok, "%s does not reach %s with its own option number" % (entry, raw),
                    {"file": b["span"]["f"], "line": b["span"]["l"], "fn": entry})
 
